@@ -137,7 +137,48 @@ def streams(rng, tier, ctx):
             cases.append((cid, sim.ops)); meta[cid] = sim
     finally:
         it.close(); codec.close()
-    return [{"name": "memory", "mode": "hc", "cases": cases, "meta": meta, "case_timeout": 60}]
+    out = [{"name": "memory", "mode": "hc", "cases": cases, "meta": meta, "case_timeout": 60}]
+    # real endpoints: the limits of the two sides differ, the side with the larger limits floods the other one, whose
+    # application reads slowly: every Reliable packet must still arrive (nothing is discarded for lack of receive memory),
+    # i.e. each sender honours the limit its PEER advertised in the handshake, not its own
+    from props import ep_common as E
+    ne = 6 if tier == "quick" else 80
+    it = Interactive("ep")
+    ecases = []; emeta = {}
+    try:
+        for i in range(ne):
+            r = rng.fork()
+            it.op("=== gene%d" % i)
+            sim = E.EpSim(r, inter=it)
+            small = dict(E.DEFAULT_EP, maxpkt=10_000, alloc=r.pick([10_000, 14_480, 30_000]))
+            big = dict(E.DEFAULT_EP, maxpkt=10_000)          # larger receive allocation, same packet size limit (the handshake refuses otherwise)
+            flooder = r.pick(["c", "s"])
+            sim.srv(8, 8, 1, small if flooder == "c" else big)
+            nets = {"c2s": E.Net(latency=r.pick([0, 2_000_000])), "s2c": E.Net(latency=0)}
+            sim.cli(0, big if flooder == "c" else small, nets)
+            sim.run(10, 5_000_000, nets)
+            npk = r.range(10, 30)
+            for _ in range(npk):
+                sim.send(flooder, 0, r.below(3), 3, r.pick([10_000, 9_000, 4_000, 1_449]))
+            # the flooded side steps 25 times less often than the flooder
+            slow = "s" if flooder == "c" else "c"
+            for k in range(r.range(300, 600)):
+                sim.tick += 1
+                sim.set_time(sim.time + 1_000_000)
+                if slow == "s":
+                    if k % 25 == 0: sim.sstep(nets)
+                    sim.cstep(0, nets)
+                else:
+                    sim.sstep(nets)
+                    if k % 25 == 0: sim.cstep(0, nets)
+            sim.run(400, 5_000_000, nets)
+            sim.flooder = flooder
+            cid = "e%d" % i
+            ecases.append((cid, sim.ops)); emeta[cid] = sim
+    finally:
+        it.close()
+    out.append({"name": "asymmetric_limits", "mode": "ep", "cases": ecases, "meta": emeta, "case_timeout": 120})
+    return out
 
 def signature(ops, outs):
     peak = 0
@@ -148,7 +189,28 @@ def signature(ops, outs):
         return None
     return (ops[1][:60], min(peak // 1448, 12), sum(1 for op in ops if " raw " in op) > 0)
 
+def ep_oracle(stream, cid, ops, outs):
+    from props import ep_common as E
+    fails = E.trap_failures(ops, outs)
+    sim = stream["meta"][cid]
+    sev, cev, log, delivered, calls = E.replay(ops, outs)
+    fl = sim.flooder
+    got = [x for (t, tag, p, x) in sev if tag == "R" and p == 0] if fl == "c" else [x for (t, tag, x) in cev.get(0, []) if tag == "R"]
+    want = [p.digest for p in sim.sent.get((fl, 0), []) if p.mode == 3]
+    have = {}
+    for g in got:
+        have[g] = have.get(g, 0) + 1
+    for k, d in enumerate(want):
+        if have.get(d, 0) == 0:
+            fails.append({"oracle": "no_discard", "detail": "Reliable packet #%d (%s) sent by the %s to a peer with a smaller receive allocation was never delivered (%d of %d arrived): discarded for lack of receive memory" %
+                          (k, d, "client" if fl == "c" else "server", len(got), len(want)), "signature": {"oracle": "no_discard", "flooder": fl}})
+            break
+        have[d] -= 1
+    return fails
+
 def oracle(stream, cid, ops, outs):
+    if stream["mode"] == "ep":
+        return ep_oracle(stream, cid, ops, outs)
     fails = H.trap_failures(ops, outs)
     sim = stream["meta"][cid]
     W = sim.cfg["pw"]
